@@ -27,6 +27,10 @@ pub struct Case {
     /// bit k set: after the k-th start event (mod 8) call read_to_end* (odd k: read_text on the slice)
     #[serde(default)]
     pub skip: u8,
+    /// bit k set: after read call number k (mod 8) read 1-3 raw bytes through Reader::stream()
+    /// (slice and buffered sources)
+    #[serde(default)]
+    pub raw: u8,
 }
 
 pub fn info() -> PropInfo {
@@ -200,7 +204,10 @@ macro_rules! drive {
     ($r:ident, $h:ident, $len:expr, $read:expr, $ns:expr) => {
         drive!($r, $h, $len, $read, $ns, 0u8, _n, Ok::<(), Error>(()))
     };
-    ($r:ident, $h:ident, $len:expr, $read:expr, $ns:expr, $skipmask:expr, $name:ident, $skip:expr) => {{
+    ($r:ident, $h:ident, $len:expr, $read:expr, $ns:expr, $skipmask:expr, $name:ident, $skip:expr) => {
+        drive!($r, $h, $len, $read, $ns, $skipmask, $name, $skip, 0u8, ())
+    };
+    ($r:ident, $h:ident, $len:expr, $read:expr, $ns:expr, $skipmask:expr, $name:ident, $skip:expr, $rawmask:expr, $raw:expr) => {{
         let mut starts_seen = 0u32;
         loop {
             let pos_probe;
@@ -219,6 +226,16 @@ macro_rules! drive {
                 let epos = $r.error_position();
                 if $h.observe(&res_owned, pos, epos, $len) {
                     break;
+                }
+                // raw reads through `Reader::stream()` between events: positions must stay sane
+                if ($rawmask >> ($h.calls % 8)) & 1 == 1 && !$h.ended {
+                    $raw;
+                    let (p2, e2) = ($r.buffer_position(), $r.error_position());
+                    if p2 < $h.prev_pos || p2 as usize > $len || e2 > p2 {
+                        $h.fail = Some(format!("after a raw read through stream(): position {} (before {}), error position {}, input length {}", p2, $h.prev_pos, e2, $len));
+                        break;
+                    }
+                    $h.prev_pos = p2;
                 }
                 if let Ok(Event::Start(s)) = &res_owned {
                     starts_seen += 1;
@@ -251,7 +268,10 @@ pub fn check(c: &Case) -> Verdict {
         (false, 0) => {
             let mut r = Reader::from_reader(&data[..]);
             apply_cfg(r.config_mut(), c.cfg);
-            drive!(r, h, len, r.read_event(), |_e: &Event| {}, c.skip, n, if n.as_ref().len() % 2 == 1 { r.read_text(n).map(|_| ()) } else { r.read_to_end(n).map(|_| ()) });
+            drive!(r, h, len, r.read_event(), |_e: &Event| {}, c.skip, n, if n.as_ref().len() % 2 == 1 { r.read_text(n).map(|_| ()) } else { r.read_to_end(n).map(|_| ()) }, c.raw, {
+                let mut tmp = [0u8; 3];
+                let _ = std::io::Read::read(&mut r.stream(), &mut tmp[..1 + (c.piece as usize % 3)]);
+            });
         }
         (false, 1) => {
             let mut r = Reader::from_reader(ChunkedBufRead::new(data, cuts_for(c)));
@@ -271,6 +291,11 @@ pub fn check(c: &Case) -> Verdict {
                 {
                     let mut b2 = Vec::new();
                     r.read_to_end_into(n, &mut b2).map(|_| ())
+                },
+                c.raw,
+                {
+                    let mut tmp = [0u8; 3];
+                    let _ = std::io::Read::read(&mut r.stream(), &mut tmp[..1 + (c.pend as usize % 3)]);
                 }
             );
         }
@@ -400,7 +425,7 @@ fn biased_bytes(max: usize) -> impl Strategy<Value = Vec<u8>> {
 }
 
 fn case_strategy(input: impl Strategy<Value = Vec<u8>>) -> impl Strategy<Value = Case> {
-    (input, 0u8..128, 0u8..3, 0u8..6, 0u8..3, any::<bool>(), prop_oneof![Just(0u8), any::<u8>()]).prop_map(|(input, cfg, source, piece, pend, ns, skip)| Case { input: B(input), cfg, source, piece, pend, ns, skip })
+    (input, 0u8..128, 0u8..3, 0u8..6, 0u8..3, any::<bool>(), prop_oneof![Just(0u8), any::<u8>()], prop_oneof![3 => Just(0u8), 1 => any::<u8>()]).prop_map(|(input, cfg, source, piece, pend, ns, skip, raw)| Case { input: B(input), cfg, source, piece, pend, ns, skip, raw })
 }
 
 fn run(ctx: &Ctx) {
@@ -421,7 +446,7 @@ fn run(ctx: &Ctx) {
             }
             let mut r = SplitMix64::derive(seed, "c03-exh", i);
             let v = if n == 3 && idx >= gen::exh_count(256, 2) { r.below(6) } else { i % per };
-            Some(Case { input: B(gen::exh_bytes(&all, idx)), cfg: (r.next() & 127) as u8, source: (v % 3) as u8, piece: 1 + r.below(2) as u8, pend: r.below(2) as u8, ns: v >= 3, skip: 0 })
+            Some(Case { input: B(gen::exh_bytes(&all, idx)), cfg: (r.next() & 127) as u8, source: (v % 3) as u8, piece: 1 + r.below(2) as u8, pend: r.below(2) as u8, ns: v >= 3, skip: 0, raw: 0 })
         },
         check,
     );
@@ -432,7 +457,7 @@ fn run(ctx: &Ctx) {
         mcount,
         |i| {
             let mut r = SplitMix64::derive(seed, "c03-exh-markup", i);
-            Some(Case { input: B(gen::exh_bytes(gen::SIGMA1, i)), cfg: (r.next() & 127) as u8, source: r.below(3) as u8, piece: r.below(4) as u8, pend: r.below(2) as u8, ns: r.chance(1, 2), skip: if r.chance(1, 3) { r.next() as u8 } else { 0 } })
+            Some(Case { input: B(gen::exh_bytes(gen::SIGMA1, i)), cfg: (r.next() & 127) as u8, source: r.below(3) as u8, piece: r.below(4) as u8, pend: r.below(2) as u8, ns: r.chance(1, 2), skip: if r.chance(1, 3) { r.next() as u8 } else { 0 }, raw: if r.chance(1, 4) { r.next() as u8 } else { 0 } })
         },
         check,
     );
@@ -448,7 +473,7 @@ fn run(ctx: &Ctx) {
     let corpus = gen::corpus();
     ctx.run_indexed("corpus", corpus.len() as u64 * 12, |i| {
         let k = i % 12;
-        Some(Case { input: B(corpus[(i / 12) as usize].1.clone()), cfg: [0u8, 127, 104, 23][(k % 4) as usize], source: (k % 3) as u8, piece: [0, 1, 7][(k / 4) as usize], pend: (k % 2) as u8, ns: k >= 6, skip: [0u8, 0x55, 0xFF][(k % 3) as usize] })
+        Some(Case { input: B(corpus[(i / 12) as usize].1.clone()), cfg: [0u8, 127, 104, 23][(k % 4) as usize], source: (k % 3) as u8, piece: [0, 1, 7][(k / 4) as usize], pend: (k % 2) as u8, ns: k >= 6, skip: [0u8, 0x55, 0xFF][(k % 3) as usize], raw: [0u8, 0, 0x24][(k % 3) as usize] })
     }, check);
     let small_corpus: Vec<&Vec<u8>> = corpus.iter().map(|c| &c.1).filter(|d| d.len() <= 4096).collect();
     let all_ref = &all;
@@ -462,7 +487,7 @@ fn run(ctx: &Ctx) {
             let edits = 1 + r.below(4);
             let alpha: &[u8] = if r.chance(1, 2) { gen::SIGMA1 } else { all_ref };
             let input = gen::mutate(&mut r, &base, alpha, edits);
-            Some(Case { input: B(input), cfg: (r.next() & 127) as u8, source: r.below(3) as u8, piece: r.below(8) as u8, pend: r.below(3) as u8, ns: r.chance(1, 2), skip: if r.chance(1, 3) { r.next() as u8 } else { 0 } })
+            Some(Case { input: B(input), cfg: (r.next() & 127) as u8, source: r.below(3) as u8, piece: r.below(8) as u8, pend: r.below(3) as u8, ns: r.chance(1, 2), skip: if r.chance(1, 3) { r.next() as u8 } else { 0 }, raw: if r.chance(1, 4) { r.next() as u8 } else { 0 } })
         },
         check,
     );
